@@ -768,6 +768,9 @@ func c11PutForce(r *core.Report, name, pos string, ps []paths.Path, q string) {
 	ok := true
 	var why []string
 	for _, pa := range ps {
+		if pa.Has("CUT") {
+			continue // left a `for {}` by the unrolling bound, not by the code
+		}
 		ia := pa.IndexArg("ADD", q)
 		if ia < 0 {
 			ok = false
@@ -788,8 +791,8 @@ func c11PutForce(r *core.Report, name, pos string, ps []paths.Path, q string) {
 						g = j
 						break
 					}
-					if pa[j].Kind == "LOOP" {
-						break
+					if pa[j].Kind == "ENDLOOP" {
+						break // (the first round of a post-test loop is guarded by the test in front of the loop)
 					}
 				}
 				if g < 0 {
